@@ -11,4 +11,6 @@ INVARIANT DropIsComplementOfFlags
 INVARIANT FirstRepresentativeStays
 INVARIANT TransposeInvolution
 INVARIANT ClipWithinBounds
+INVARIANT RehierarchExact
+INVARIANT LevelAddDropRoundTrip
 CHECK_DEADLOCK FALSE
